@@ -1,0 +1,6 @@
+//go:build !verif
+
+package agentstorage
+
+// verifPoint marks a scheduling point of WritePiece; it is a no-op unless built with the tag `verif`.
+func verifPoint(point string) {}
